@@ -295,3 +295,172 @@ Proof.
 Qed.
 
 End HostPortPost.
+
+(* ---------- the host state of the parser, as the quirks setters call it ---------- *)
+Lemma parse_host_disp hp hpo hd st l h rem : host_fns_ok hp hpo hd ->
+  parse_host hp hpo st l = POk (h, rem) -> host_disp_ok hd h.
+Proof.
+  intros (F1 & F2 & F3). unfold parse_host. destruct (st_is_file st).
+  - unfold get_file_host. destruct (file_host l) as [t rm].
+    destruct (hp t) as [h0|e] eqn:Ep; cbn [of_result pbind]; [|discriminate].
+    intros H. inversion H; subst. destruct h0 as [d|a|p]; try exact (F1 t _ Ep).
+    destruct (list_eqb d s_localhost); [exact F3 | exact (F1 t _ Ep)].
+  - destruct (host_scan (st_is_special st) false [] l) as [t rm].
+    destruct (scheme_type_eqb st STSpecialNotFile && match t with [] => true | _ => false end); [discriminate|].
+    destruct (negb (st_is_special st)).
+    + destruct (hpo t) as [h0|e] eqn:Ep; cbn [of_result pbind]; [|discriminate].
+      intros H. inversion H; subst. exact (F2 t _ Ep).
+    + destruct (hp t) as [h0|e] eqn:Ep; cbn [of_result pbind]; [|discriminate].
+      intros H. inversion H; subst. exact (F1 t _ Ep).
+Qed.
+
+Lemma decimal_nonempty p : exists c r, decimal p = c :: r.
+Proof.
+  unfold decimal. destruct (decimal_rev_head 39 p) as (d & r & E & _). change (S 39) with 40%nat in E. rewrite E.
+  cbn [rev]. destruct (rev r) as [|c r']; [exists d, []; reflexivity | exists c, (r' ++ [d]); reflexivity].
+Qed.
+
+Lemma q_port_empty dbg u : wf_b u = true -> q_port dbg u = Some [] -> port u = None.
+Proof.
+  intros W H. unfold q_port in H. rewrite (index_range_eval dbg u W BeforePort AfterPort) in H by (cbn; lia).
+  inversion H as [Hp]. clear H. destruct (port u) as [p|] eqn:E; [exfalso | reflexivity].
+  unfold piece in Hp. cbn [pidx] in Hp. rewrite ?E in Hp.
+  assert (has_authority_b u = true) as Ha.
+  { destruct (has_authority_b u) eqn:Ha; [reflexivity|]. pose proof (wf_noauth_facts u W Ha) as F.
+    rewrite (nf_port F) in E. discriminate. }
+  pose proof W as W0. apply wf_b_iff in W0. rewrite Ha in W0. destruct W0 as (_ & ((_ & _ & _ & _ & _ & _ & _ & P) & _) & _).
+  unfold port_ok in P. rewrite E in P. destruct P as (_ & _ & _ & P4).
+  destruct (decimal_nonempty p) as (c & r & Ed). rewrite Ed in P4.
+  destruct (nskipn (host_end u + 1) (ser u)) as [|c0 r0]; [unfold nfirstn in P4; rewrite firstn_nil in P4; discriminate|].
+  assert (1 <= host_end u + 1 + count_digits p - (host_end u + 1)) as Hn by (unfold count_digits; repeat destruct (_ <=? _); lia).
+  unfold nfirstn in Hp. destruct (N.to_nat (host_end u + 1 + count_digits p - (host_end u + 1))) eqn:En; [lia|].
+  cbn [firstn] in Hp. discriminate.
+Qed.
+
+Section QHost.
+Variable dbg : bool.
+Variable hp hpo : list N -> result host.
+Variable hd : host -> list N.
+Hypothesis HF : host_fns_ok hp hpo hd.
+
+(* quirks::set_hostname: the host is the one the parser's host state returns for the argument (for a
+   file URL and an empty argument: the empty host); a success is set_host_internal with that host.
+   The empty host is refused by the code itself when the URL has a port, so F-C02-4 needs no premise
+   here except for the file/empty-argument shortcut *)
+Theorem q_set_hostname_post u v u' : wf_b u = true ->
+  (has_authority_b u = false -> path_start u = scheme_end u + 1) ->
+  q_set_hostname dbg hp hpo hd u v = Some (u', SOk) ->
+  exists sch h, scheme u = Some sch
+    /\ ((scheme_type_of sch = STFile /\ v = [] /\ h = HDomain []
+         /\ ((has_authority_b u = true -> port u = None) -> host_set_post dbg hd u u' h))
+        \/ ((exists rem, parse_host hp hpo (scheme_type_of sch) (input_new_no_trim v) = POk (h, rem))
+            /\ host_set_post dbg hd u u' h)).
+Proof using HF.
+  intros W X2 H. unfold q_set_hostname in H. rewrite (cannot_be_a_base_eval u W) in H. cbn [bindo] in H.
+  destruct (byte_eqb (ser u) (scheme_end u + 1) 47) eqn:Hsl; cbn [negb] in H; [|discriminate].
+  rewrite (scheme_eval u W) in H. cbn [bindo] in H.
+  set (sch := piece u (pidx u BeforeScheme) (pidx u AfterScheme)) in *.
+  exists sch.
+  destruct (scheme_type_eqb (scheme_type_of sch) STFile && match v with [] => true | _ => false end) eqn:Ef.
+  - apply andb_true_iff in Ef. destruct Ef as [Ef Ev].
+    destruct (set_host_internal dbg hd u (HDomain []) None) as [u0|] eqn:E; cbn [bindo] in H; [|discriminate].
+    inversion H; subst u0. exists (HDomain []). split; [apply (scheme_eval u W)|]. left.
+    split; [destruct (scheme_type_of sch); try discriminate; reflexivity|].
+    split; [destruct v; [reflexivity | discriminate]|]. split; [reflexivity|]. intros X1.
+    apply (set_host_internal_post dbg hd u (HDomain []) u' W); try assumption.
+    + exact (proj2 (proj2 HF)).
+    + intros Ha _. exact (X1 Ha).
+  - destruct (parse_host hp hpo (scheme_type_of sch) (input_new_no_trim v)) as [[h rem]|e|] eqn:Ep; cbn [pres_ok bindo] in H;
+      [|discriminate|discriminate].
+    match type of H with bindo ?r _ = _ => destruct r as [[|]|] eqn:Er end; cbn [bindo] in H; try discriminate.
+    destruct (set_host_internal dbg hd u h None) as [u0|] eqn:E; cbn [bindo] in H; [|discriminate].
+    inversion H; subst u0. exists h. split; [apply (scheme_eval u W)|]. right. split; [exists rem; reflexivity|].
+    apply (set_host_internal_post dbg hd u h u' W (parse_host_disp _ _ _ _ _ _ _ HF Ep)); try assumption.
+    intros Ha Hn. apply hi_of_host_none in Hn. subst h.
+    destruct (q_port dbg u) as [p|] eqn:Eq; cbn [bindo] in Er; [|discriminate].
+    destruct (username dbg u) as [un|]; cbn [bindo] in Er; [|discriminate].
+    destruct (q_password dbg u) as [pw|]; cbn [bindo] in Er; [|discriminate].
+    inversion Er as [Hr]. destruct p as [|c r]; [apply (q_port_empty dbg u W Eq)|].
+    cbn [negb] in Hr. rewrite orb_true_r in Hr. cbn [orb] in Hr. discriminate.
+Qed.
+
+End QHost.
+
+(* ---------- quirks::set_host: host and, optionally, port ---------- *)
+(* what the text behind the host says about the port: None = nothing (no ':', nothing behind it, or not a
+   port: the old port stays); Some p = the parser's port state (setter context) returned p *)
+Definition q_host_port (sc remaining : list N) : option (option N) :=
+  match inp_split_prefix_char 58 remaining with
+  | Some rem =>
+      if inp_is_empty rem then None
+      else match parse_port CSetter (default_port sc) rem with
+           | POk (p, _) => Some p
+           | _ => None
+           end
+  | None => None
+  end.
+
+Section QHost2.
+Variable dbg : bool.
+Variable hp hpo : list N -> result host.
+Variable hd : host -> list N.
+Hypothesis HF : host_fns_ok hp hpo hd.
+
+Theorem q_set_host_post u v u' : wf_b u = true ->
+  (has_authority_b u = false -> path_start u = scheme_end u + 1) ->
+  q_set_host dbg hp hpo hd u v = Some (u', SOk) ->
+  exists sch h, scheme u = Some sch
+    /\ ((scheme_type_of sch = STFile /\ v = [] /\ h = HDomain []
+         /\ ((has_authority_b u = true -> port u = None) -> host_set_post dbg hd u u' h))
+        \/ (exists rem, parse_host hp hpo (scheme_type_of sch) (input_new_no_trim v) = POk (h, rem)
+            /\ match q_host_port sch rem with
+               | None => host_set_post dbg hd u u' h
+               | Some np => host_port_post dbg hd u u' h np
+               end)).
+Proof using HF.
+  intros W X2 H. unfold q_set_host in H. rewrite (cannot_be_a_base_eval u W) in H. cbn [bindo] in H.
+  destruct (byte_eqb (ser u) (scheme_end u + 1) 47) eqn:Hsl; cbn [negb] in H; [|discriminate].
+  rewrite (scheme_eval u W) in H. cbn [bindo] in H.
+  set (sch := piece u (pidx u BeforeScheme) (pidx u AfterScheme)) in *.
+  exists sch.
+  destruct (scheme_type_eqb (scheme_type_of sch) STFile && match v with [] => true | _ => false end) eqn:Ef.
+  - apply andb_true_iff in Ef. destruct Ef as [Ef Ev].
+    destruct (set_host_internal dbg hd u (HDomain []) None) as [u0|] eqn:E; cbn [bindo] in H; [|discriminate].
+    inversion H; subst u0. exists (HDomain []). split; [apply (scheme_eval u W)|]. left.
+    split; [destruct (scheme_type_of sch); try discriminate; reflexivity|].
+    split; [destruct v; [reflexivity | discriminate]|]. split; [reflexivity|]. intros X1.
+    apply (set_host_internal_post dbg hd u (HDomain []) u' W); try assumption.
+    + exact (proj2 (proj2 HF)).
+    + intros Ha _. exact (X1 Ha).
+  - destruct (parse_host hp hpo (scheme_type_of sch) (input_new_no_trim v)) as [[h rem]|e|] eqn:Ep; cbn [pres_ok bindo] in H;
+      [|discriminate|discriminate].
+    match type of H with bindo ?r _ = _ => replace r with (Some (q_host_port sch rem)) in H end.
+    2:{ unfold q_host_port. destruct (inp_split_prefix_char 58 rem) as [rm|]; [|reflexivity].
+        destruct (inp_is_empty rm); [reflexivity|].
+        destruct (parse_port CSetter (default_port sch) rm) as [[p r0]|e|]; reflexivity. }
+    cbn [bindo] in H. rewrite (username_eval dbg u W) in H. cbn [bindo] in H.
+    exists h. split; [apply (scheme_eval u W)|]. right. exists rem. split; [reflexivity|].
+    pose proof (parse_host_disp _ _ _ _ _ _ _ HF Ep) as Hdo.
+    match type of H with (if ?c then _ else _) = _ => destruct c eqn:Ec end; [discriminate|].
+    assert (hi_of_host h = HI_None -> port u = None
+            /\ match q_host_port sch rem with Some (Some _) => False | _ => True end) as Hemp.
+    { intros Hn. apply hi_of_host_none in Hn. subst h. cbn [andb] in Ec.
+      apply orb_false_iff in Ec. destruct Ec as [Ec E3]. apply orb_false_iff in Ec. destruct Ec as [_ E2].
+      split; [destruct (port u); [discriminate | reflexivity]|].
+      destruct (q_host_port sch rem) as [[x|]|]; [discriminate | exact I | exact I]. }
+    destruct (q_host_port sch rem) as [np|] eqn:Eq.
+    + destruct (set_host_internal dbg hd u h (Some np)) as [u0|] eqn:E; cbn [bindo] in H; [|discriminate].
+      inversion H; subst u0.
+      apply (set_host_internal_port_post dbg hd u h np u' W Hdo); try assumption.
+      * unfold q_host_port in Eq. destruct (inp_split_prefix_char 58 rem) as [rm|]; [|discriminate].
+        destruct (inp_is_empty rm); [discriminate|].
+        destruct (parse_port CSetter (default_port sch) rm) as [[p r0]|e|] eqn:Epp; try discriminate.
+        inversion Eq; subst. exact (parse_port_le _ _ _ _ _ Epp).
+      * intros Hn. destruct (Hemp Hn) as [Hp Hq]. split; [destruct np; [contradiction | reflexivity] | intros _; exact Hp].
+    + destruct (set_host_internal dbg hd u h None) as [u0|] eqn:E; cbn [bindo] in H; [|discriminate].
+      inversion H; subst u0.
+      apply (set_host_internal_post dbg hd u h u' W Hdo); try assumption.
+      intros _ Hn. exact (proj1 (Hemp Hn)).
+Qed.
+
+End QHost2.
